@@ -6,6 +6,7 @@ import WalrusVerif.Model.Snapshot
 import WalrusVerif.Model.Engine
 import WalrusVerif.Model.Quirks
 import WalrusVerif.Model.Frame
+import WalrusVerif.Model.AEng
 /-!
 `wdriver`: line-protocol driver.  One request per line on stdin, one reply per line on stdout.
 It runs the very definitions the theorems in `WalrusVerif/Props` are about.
@@ -39,6 +40,9 @@ structure DState where
   mode : Eng.Mode := .strict
   proc : Eng.Proc := {}
   backend : Frame.Backend := {}
+  /-- the entry-level model, valid from the first `open` of a program until a close/restart or a fired quirk -/
+  aeng : Option AEng.AState := none
+  opens : Nat := 0
 
 def replyStr : Meta.Reply → String
   | .exists_ => "EXISTS" | .created => "CREATED" | .rolled => "ROLLED" | .node => "NODE"
@@ -196,7 +200,7 @@ def handleEng (st : DState) (toks : List String) : Option (DState × String) :=
     match parseMode m with
     | some mode =>
       let cfg := if g = "small" then Eng.smallCfg else Eng.realCfg
-      some ({ st with cfg := cfg, mode := mode, proc := {} }, "ok")
+      some ({ st with cfg := cfg, mode := mode, proc := {}, aeng := none, opens := 0 }, "ok")
     | none => some (st, "bad-op")
   | "eng" :: rest =>
     match parseEngOp st rest with
@@ -204,10 +208,30 @@ def handleEng (st : DState) (toks : List String) : Option (DState × String) :=
       let (p, o) := Eng.step st.cfg st.proc op
       let q := Eng.fires st.cfg st.proc op
       let pre := if q.isEmpty then "" else "#quirk " ++ ",".intercalate q ++ "\n"
-      let txt := pre ++ match op, o with
+      -- the entry-level model runs alongside while it applies
+      let aop : Option AEng.AOp := match op with
+        | .append t pay => some (.append t pay)
+        | .batch t ps => some (.batch t ps)
+        | .next t cp => some (.next t cp)
+        | .bread t m cp s => some (.bread t m cp s)
+        | .count t => some (.count t)
+        | _ => none
+      let (aeng, opens, apre) : Option AEng.AState × Nat × String :=
+        match op with
+        | .open_ _ => if st.opens = 0 then (some {}, 1, "") else (none, st.opens + 1, "")
+        | .close => (none, st.opens, "")
+        | .restart => (none, st.opens, "")
+        | _ =>
+          if q.contains "sealThenAllocFail" then (none, st.opens, "")
+          else match st.aeng, aop with
+            | some a, some ao =>
+              let (a', ao') := AEng.step st.cfg a ao
+              (some a', st.opens, if ao' == o then "#aeng-ok\n" else "#aeng-mismatch " ++ fmtOut ao' ++ "\n")
+            | a, _ => (a, st.opens, "")
+      let txt := pre ++ apre ++ match op, o with
         | .bread _ _ _ (some _), .entries ps => "[" ++ ",".intercalate (ps.map fun (p, tr) => fmtDigest p tr) ++ "]"
         | _, _ => fmtOut o
-      some ({ st with proc := p }, txt)
+      some ({ st with proc := p, aeng := aeng, opens := opens }, txt)
     | none => some (st, "bad-op")
   | _ => none
 
